@@ -309,6 +309,20 @@ class World:
     # ---------------- generation ----------------
     def gen_op(self, r):
         nf = len(self.files)
+        plan_ = getattr(self, "plan_ops", [])
+        if plan_:
+            return plan_.pop(0)
+        with_basin = [i for i, f in enumerate(self.files) if f.get("basin") not in (None, "none")]
+        if nf >= 2 and with_basin and r.random() < 0.1:
+            # one file copied with other options, another file copied in between, then the first file copied again:
+            # A without its basins, B, A with its basins (and the mirrored order)
+            a = r.choice(with_basin)
+            b = r.choice([i for i in range(nf) if i != a])
+            o1, o2 = r.choice([(True, False), (True, False), (False, True)])
+            self.plan_ops = [{"k": "tool", "src": b, "tool": r.choice(["compress", "repack", "condense"]), "opts": {}, "again": False, "outname": "plain"},
+                             {"k": "tool", "src": a, "tool": r.choice(["compress", "repack", "condense"]) if not o2 else "repack",
+                              "opts": {"strip_basins": True} if o2 else {}, "again": False, "outname": "plain"}]
+            return {"k": "tool", "src": a, "tool": "repack", "opts": {"strip_logs": False, "strip_basins": o1}, "again": False, "outname": "plain"}
         if nf == 0 or (nf < 3 and r.random() < 0.4) or (nf < 12 and r.random() < 0.12):
             if r.random() < 0.1:
                 # a file of realistic size: 80x250 images, event count at and around multiples of the writer's default chunk
